@@ -87,6 +87,7 @@ pub struct Harness {
     pub old_passwords: BTreeMap<u32, Vec<String>>,
     pub token_owner: BTreeMap<usize, (u32, String)>,
     pub token_expiry: BTreeMap<usize, Option<(u64, u64)>>,
+    pub journalled_names: Vec<String>,
 }
 
 fn ok<T>(r: &Result<T, IggyError>) -> bool {
@@ -188,6 +189,7 @@ impl Harness {
             old_passwords: BTreeMap::new(),
             token_owner: BTreeMap::new(),
             token_expiry: BTreeMap::new(),
+            journalled_names: Vec::new(),
         }
     }
 
@@ -252,7 +254,8 @@ impl Harness {
         self.connected_at.insert(c, self.sim.now_micros());
         self.last_ping.remove(&c);
         if as_root {
-            client.login_user(crate::world::ROOT_USER, crate::world::ROOT_PASSWORD).await?;
+            let (name, password) = self.model.users.get(&1).map(|u| (u.name.clone(), u.password.clone())).unwrap_or((crate::world::ROOT_USER.into(), crate::world::ROOT_PASSWORD.into()));
+            client.login_user(&name, &password).await?;
             self.model.sessions[c].user = 1;
         }
         self.clients[c] = Some(client);
@@ -514,7 +517,11 @@ impl Harness {
         let Some(target) = targets.iter().next().copied() else {
             // accepted, but nothing visible anywhere
             let accepted = self.dedup_filter(sid, tid, None, msgs);
-            if accepted > 0 {
+            let tainted = match part {
+                Part::Id(p) => topic_model.partitions.get(p).map(|x| x.tainted).unwrap_or(false),
+                _ => topic_model.partitions.values().any(|x| x.tainted),
+            };
+            if accepted > 0 && !tainted {
                 self.violate("C02", "tail_visible_after_ack", "nothing_visible", format!("send of {} messages to {sid}/{tid} {part:?} acknowledged, no partition shows them", msgs.len()));
                 // keep the model in step if the destination is unambiguous
                 if let Part::Id(p) = part {
@@ -544,7 +551,7 @@ impl Harness {
             let expect: Vec<u64> = (base..base + appended as u64).collect();
             let polled = PolledMessages { partition_id: polled.partition_id, current_offset: polled.current_offset, messages: clone_messages(&polled.messages) };
             self.compare_poll(sid, tid, target, &PollExpectation { primary: expect, alternative: None }, &polled, "tail_after_send");
-        } else if appended > 0 {
+        } else if appended > 0 && !topic_model.partitions[&target].tainted {
             self.violate("C02", "tail_visible_after_ack", "tail_missing", format!("partition {target} of {sid}/{tid} advanced but the tail poll returned none of the new messages"));
         }
     }
@@ -1092,7 +1099,10 @@ impl Harness {
     }
 
     async fn flush_everything(&mut self) {
-        let Ok(client) = self.world.root_client().await else { return };
+        if self.clients[0].is_none() && self.connect_client(0, true).await.is_err() {
+            return;
+        }
+        let client = self.clients[0].as_ref().unwrap();
         let targets: Vec<(u32, u32, u32)> = self
             .model
             .streams
@@ -1169,6 +1179,64 @@ impl Harness {
             }
         }
         crate::harness_cat::audit_catalogue(self).await;
+        self.scan_files_for_secrets();
+    }
+
+    /// C10 / C19: no password, raw token (and, with encryption on, no payload or journalled name) may
+    /// appear in any file under the data directory — also not base64- or UTF-16-encoded.
+    pub fn scan_files_for_secrets(&mut self) {
+        if !(self.on("C10") || self.on("C19")) {
+            return;
+        }
+        use base64::Engine;
+        let mut needles: Vec<(Vec<u8>, &'static str, &'static str, String)> = Vec::new();
+        if self.on("C10") {
+            for secret in self.secrets.clone() {
+                if secret.len() < 6 {
+                    continue;
+                }
+                needles.push((secret.as_bytes().to_vec(), "C10", "secret_in_clear", format!("secret '{}…'", &secret[..4])));
+                needles.push((base64::engine::general_purpose::STANDARD.encode(secret.as_bytes()).into_bytes(), "C10", "secret_base64", format!("base64 of secret '{}…'", &secret[..4])));
+                let utf16: Vec<u8> = secret.encode_utf16().flat_map(|u| u.to_le_bytes()).collect();
+                needles.push((utf16, "C10", "secret_utf16", format!("UTF-16 of secret '{}…'", &secret[..4])));
+            }
+        }
+        if self.on("C19") && self.opts.encryption {
+            needles.push((b"<<PAYLOAD:".to_vec(), "C19", "payload_in_clear", "a message payload marker".into()));
+            for name in self.journalled_names.clone() {
+                if name.len() >= 8 {
+                    needles.push((name.as_bytes().to_vec(), "C19", "journalled_content_in_clear", format!("journalled name '{name}'")));
+                }
+            }
+        }
+        if needles.is_empty() {
+            return;
+        }
+        let root = self.world.data_path();
+        let mut stack = vec![std::path::PathBuf::from(&root)];
+        let mut files = 0;
+        while let Some(dir) = stack.pop() {
+            let Ok(rd) = std::fs::read_dir(&dir) else { continue };
+            for e in rd.flatten() {
+                let p = e.path();
+                if p.is_dir() {
+                    stack.push(p);
+                    continue;
+                }
+                let Ok(data) = std::fs::read(&p) else { continue };
+                files += 1;
+                for (needle, prop, tag, what) in &needles {
+                    if needle.len() <= data.len() && data.windows(needle.len()).any(|w| w == &needle[..]) {
+                        let rel = p.strip_prefix(&root).map(|x| x.display().to_string()).unwrap_or_default();
+                        let class = if rel.starts_with("state") { "state" } else if rel.ends_with(".log") { "segment_log" } else { "other" };
+                        self.violate(prop, "no_clear_text_in_files", format!("{tag}:{class}"), format!("{what} found in {rel}"));
+                    }
+                }
+            }
+        }
+        if files > 0 {
+            self.stats.probe("files_scanned_for_secrets");
+        }
     }
 }
 
